@@ -24,7 +24,7 @@ fn spec(t: Tier) -> Spec {
     Spec {
         id: "C11",
         level: "exploration",
-        rule: format!("(1) every token sequence of length <= {} over the 16-token alphabet (and over a variant with -delete) that the reference grammar REJECTS must be rejected by find_main: non-zero status, a diagnostic, empty stdout, tree untouched; (2) for each operand-taking primary every string of <= k symbols over a per-primary alphabet is given as operand; where the reference validity predicate says 'definitely invalid' the vector must be rejected the same way; (3) every vector of (1),(2), every primary with its operand missing, every primary evaluated on an entry already removed by -delete, and -ls/-printf on entries owned by ids without passwd/group entries run under catch_unwind and must not panic; binary slice: vectors <= 3 tokens and a non-UTF-8 argument through the hooks-off binary (exit 101/134/signal = panic/abort; 10 s = hang). non-trivial = vector the reference classifies as invalid", glen(t)),
+        rule: format!("(1) every token sequence of length <= {} over the 16-token alphabet (and over a variant with -delete) that the reference grammar REJECTS must be rejected by find_main: non-zero status, a diagnostic, empty stdout, tree untouched; (2) for each operand-taking primary every string of <= k symbols over a per-primary alphabet is given as operand; where the reference validity predicate says 'definitely invalid' the vector must be rejected the same way; (3) every vector of (1),(2), every primary with its operand missing, every primary evaluated on an entry already removed by -delete, and -ls/-printf on entries owned by ids without passwd/group entries run under catch_unwind and must not panic; binary slice: vectors <= 3 tokens and a non-UTF-8 argument through the hooks-off binary (exit 101/134/signal = panic/abort; 10 s = hang). scale vectors through the binary: N nested (negated) parentheses, right-nested -o / comma groups, N '!' in a row, chains of N terms, N starting points, operands of N bytes for -name/-regex/-printf/-path, N in 100, 1000, 3000, 10^4, 3x10^4, 10^5 — must end with an ordinary exit status (0, or non-zero with a diagnostic); non-trivial = vector the reference classifies as invalid", glen(t)),
         bound: json!({"grammar_len": glen(t), "operand_sweeps": sweeps(t).iter().map(|s| json!({"primary": s.primary, "alphabet": s.alphabet, "maxlen": s.maxlen})).collect::<Vec<_>>()}),
         assumptions: vec![
             "operands whose validity is debatable (valid in GNU but unsupported here, GNU-specific leniency) are executed for no-panic only".into(),
@@ -773,6 +773,93 @@ fn run(ctx: &mut Ctx) {
     fixed_vectors(ctx, &mut global);
     odd_trees(ctx, &mut global);
     binary_slice(ctx, &mut global);
+    scale_vectors(ctx, &mut global);
+}
+
+/// Argument vectors of a size the exhaustive slices never reach, through the find binary (a stack
+/// overflow kills the process): N nested parentheses, N '!' in a row, chains of N terms joined by
+/// -o / -a / ',', right-nested `( T -o ( T -o ( ...`, N starting points, one operand of N bytes for
+/// -name / -regex / -printf — N up to 10^5 (bounded by the kernel's argv budget). Whatever find
+/// thinks of them, it must end with an ordinary exit status: 0, or non-zero with a diagnostic.
+fn scale_vectors(ctx: &mut Ctx, global: &mut u64) {
+    use std::ffi::OsStr;
+    let sbx = ctx.sbx.clone();
+    let rep = |w: &[&str], n: usize| -> Vec<String> { (0..n).flat_map(|_| w.iter().map(|s| s.to_string())).collect() };
+    let mut cases: Vec<(String, Vec<String>)> = vec![];
+    for n in [100usize, 1000, 3000, 10_000, 30_000, 100_000] {
+        let mut v = vec!["r".to_string()];
+        v.extend(rep(&["("], n));
+        v.push("-true".into());
+        v.extend(rep(&[")"], n));
+        cases.push((format!("{n} nested parentheses"), v));
+        let mut v = vec!["r".to_string()];
+        v.extend(rep(&["!", "("], n));
+        v.push("-true".into());
+        v.extend(rep(&[")"], n));
+        cases.push((format!("{n} nested negated parentheses"), v));
+        let mut v = vec!["r".to_string()];
+        v.extend(rep(&["(", "-false", "-o"], n));
+        v.push("-true".into());
+        v.extend(rep(&[")"], n));
+        cases.push((format!("{n} right-nested -o groups"), v));
+        let mut v = vec!["r".to_string()];
+        v.extend(rep(&["(", "-true", ","], n));
+        v.push("-true".into());
+        v.extend(rep(&[")"], n));
+        cases.push((format!("{n} right-nested comma groups"), v));
+        let mut v = vec!["r".to_string()];
+        v.extend(rep(&["!"], n));
+        v.push("-true".into());
+        cases.push((format!("{n} '!' in a row"), v));
+        for op in ["-o", "-a", ","] {
+            let mut v = vec!["r".to_string(), "-false".to_string()];
+            v.extend(rep(&[op, "-false"], n));
+            cases.push((format!("chain of {n} terms joined by {op}"), v));
+        }
+        let mut v = rep(&["r"], n);
+        v.extend(["-maxdepth", "0", "-false"].map(String::from));
+        cases.push((format!("{n} starting points"), v));
+        if n <= 100_000 {
+            for prim in ["-name", "-regex", "-printf", "-path"] {
+                cases.push((format!("{prim} with an operand of {n} bytes"), vec!["r".into(), prim.into(), "a".repeat(n)]));
+                if n <= 10_000 {
+                    // (the glob translation is quadratic in the number of unclosed '[': 26 s for 50 000 —
+                    // slow, not a hang; kept below the 10 s watchdog here)
+                    cases.push((format!("{prim} with an operand of {n} '[' / '(' / '%'"), vec!["r".into(), prim.into(), (if prim == "-printf" { "%%" } else if prim == "-regex" { "\\(" } else { "[" }).repeat(n / 2)]));
+                }
+            }
+        }
+    }
+    for (what, argv) in cases {
+        *global += 1;
+        if !ctx.mine(*global) {
+            continue;
+        }
+        // the kernel's budget for argv (2 MiB with the default 8 MiB stack, 8 bytes per pointer,
+        // 128 KiB per string): vectors that cannot be passed at all are not cases
+        let bytes: usize = argv.iter().map(|a| a.len() + 1 + 8).sum();
+        if bytes > 1_500_000 || argv.iter().any(|a| a.len() >= 131_000) {
+            ctx.rep.count("scale_vectors_beyond_the_kernel_argv_budget", 1);
+            continue;
+        }
+        let os: Vec<&OsStr> = argv.iter().map(OsStr::new).collect();
+        let (code, sig, hung, err) = run_bin_raw(&os, &sbx);
+        ctx.rep.evaluations += 1;
+        ctx.rep.nontrivial += 1;
+        ctx.rep.count("scale_vectors", 1);
+        ctx.rep.class(&format!("scale status={:?}", code.map(|c| c.min(2))));
+        let died = hung || sig.is_some() || matches!(code, Some(101) | Some(134)) || code.is_none();
+        let silent_failure = matches!(code, Some(c) if c != 0) && err.is_empty();
+        if died || silent_failure {
+            let kind = what.split_once(' ').map(|(a, b)| if a.chars().all(|c| c.is_ascii_digit()) { b.to_string() } else { what.clone() }).unwrap_or(what.clone());
+            let kind: String = kind.split(" of ").next().unwrap_or(&kind).to_string();
+            ctx.rep.violation(
+                &format!("C11 find binary {} on a very long argument vector ({kind})", if hung { "hung (>10 s)".to_string() } else if died { "died (panic / abort / signal)".to_string() } else { "failed without a diagnostic".to_string() }),
+                format!("{what}: code {:?} signal {:?} stderr {:?}", code, sig, String::from_utf8_lossy(&err).chars().take(300).collect::<String>()),
+                json!({"prop":"C11","scale":what,"binary":true}),
+            );
+        }
+    }
 }
 
 /// Grammar complement over {( ) ! -a -o , -true -false -delete -print}: a rejected vector must
